@@ -44,6 +44,12 @@ impl DetectProp for C04 {
                     }
                 }
             }
+            2 if idx % 12 == 2 => {
+                c.bytes = long_runs_text(rng).into_bytes();
+                c.sett.incl.clear();
+                c.sett.excl.clear();
+                c.tag = "long-letter-runs".into();
+            }
             1 if idx % 6 == 1 => {
                 // messy but valid UTF-8
                 let n = rng.range(5, 400);
